@@ -53,6 +53,7 @@ class T:
 
 
 def tokenize(s):
+    s = re.sub(r'\(lambda at [^)]*\)', '(lambda)', s)     # closure types are printed with their source location (path:line:col)
     out = []
     i = 0
     while i < len(s):
